@@ -54,6 +54,10 @@ type c02Case struct {
 	PipeSize int
 	Provoke  bool // deterministic provocation of the recorded finding
 	Wide     int  // > 0: every Wide-th line of each file is 40-330 KB long
+	// Rotate: what happens to the (single) file 1.2 s into a read that lasts
+	// about 5 s: "rename" (moved away, a shorter new file appears under the
+	// name: log rotation) or "unlink". The open file is read to its end.
+	Rotate string
 }
 
 func c02Line(file, seq int, hit bool, padLen int) string {
@@ -292,7 +296,7 @@ func (c *c02Case) shape() string {
 			sz = f.Lines
 		}
 	}
-	return fmt.Sprintf("%s/%s/files%d/glob%v/ssh%v/limit%d/maxlines%s/pipe%d/wide%d", c.Mode, c.Pace.Kind, len(c.Files), c.Glob, c.SSH, c.Limit, sizeClass(sz), c.PipeSize, c.Wide)
+	return fmt.Sprintf("%s/%s/files%d/glob%v/ssh%v/limit%d/maxlines%s/pipe%d/wide%d/%s", c.Mode, c.Pace.Kind, len(c.Files), c.Glob, c.SSH, c.Limit, sizeClass(sz), c.PipeSize, c.Wide, c.Rotate)
 }
 
 type c02Server struct {
@@ -373,6 +377,24 @@ func c02Body(r *vlib.Run) int {
 		c.Files = []c02File{{ID: 0, Lines: 9000 + 500*k, Path: p}}
 		cases = append([]*c02Case{c}, cases...)
 	}
+	// the file is rotated or removed while a slow consumer keeps the read going
+	// for several seconds (beyond the reader's 3 s housekeeping period)
+	nRot := r.N(3, 16)
+	for k := 0; k < nRot; k++ {
+		lines := 6000 + 400*k
+		c := &c02Case{Mode: []string{"cat", "grep"}[k%2], SSH: k%3 == 2, Limit: 2, PipeSize: 4096, Rotate: []string{"rename", "unlink"}[(k/2)%2]}
+		d := filepath.Join(dir, fmt.Sprintf("rot%d", k))
+		os.MkdirAll(d, 0755)
+		p := filepath.Join(d, "f00.log")
+		total := c02WriteFile(p, 0, lines)
+		if c.Mode == "grep" {
+			total /= 3
+		}
+		// about 5 s for the whole output
+		c.Pace = pacing{Kind: "slow", Chunk: 4096, DelayMs: 5000 / (float64(total)/4096 + 1)}
+		c.Files = []c02File{{ID: 0, Lines: lines, Path: p}}
+		cases = append([]*c02Case{c}, cases...)
+	}
 	if len(pool) == 0 {
 		for _, c := range cases {
 			c.SSH = false
@@ -417,6 +439,35 @@ func c02Run(r *vlib.Run, i int, c *c02Case, cfgs map[int]string, free chan *c02S
 	var res *vlib.Result
 	var out []byte
 	var evs []hookEvent
+	var onStart func(int)
+	if c.Rotate != "" {
+		stopRot := make(chan struct{})
+		defer close(stopRot)
+		armed := make(chan struct{})
+		var armOnce sync.Once
+		onStart = func(int) { armOnce.Do(func() { close(armed) }) }
+		go func() {
+			// 1.2 s after the client process was started
+			select {
+			case <-armed:
+			case <-stopRot:
+				return
+			}
+			select {
+			case <-time.After(1200 * time.Millisecond):
+			case <-stopRot:
+				return
+			}
+			p := c.Files[0].Path
+			if c.Rotate == "rename" {
+				os.Rename(p, p+".1")
+				os.WriteFile(p, []byte("a new and much shorter file under the old name\n"), 0644)
+			} else {
+				os.Remove(p)
+			}
+			r.Count("files_rotated_or_removed_during_a_slow_read", 1)
+		}()
+	}
 	traceFile := filepath.Join(r.Dir("c02trace"), fmt.Sprintf("t%d.jsonl", i))
 	if c.SSH {
 		srv := <-free
@@ -427,7 +478,7 @@ func c02Run(r *vlib.Run, i int, c *c02Case, cfgs map[int]string, free chan *c02S
 		before := len(readTrace(srv.trace))
 		full := append(srv.fl.ClientArgs(), "--logger", "stdout", "--logLevel", "error")
 		full = append(full, args...)
-		res, out = runPaced(vlib.Cmd{Path: r.Bin(bin), Args: full, Env: srv.fl.ClientEnv(), Dir: srv.fl.Home, Watchdog: 240 * time.Second}, c.Pace, c.PipeSize)
+		res, out = runPacedPid(vlib.Cmd{Path: r.Bin(bin), Args: full, Env: srv.fl.ClientEnv(), Dir: srv.fl.Home, Watchdog: 240 * time.Second}, c.Pace, c.PipeSize, onStart)
 		time.Sleep(30 * time.Millisecond)
 		all := readTrace(srv.trace)
 		if len(all) >= before {
@@ -441,7 +492,7 @@ func c02Run(r *vlib.Run, i int, c *c02Case, cfgs map[int]string, free chan *c02S
 		if c.Points != "" {
 			env = append(env, "VERIF_POINTS="+c.Points)
 		}
-		res, out = runPaced(vlib.Cmd{Path: r.Bin(bin), Args: full, Env: env, Dir: home, Watchdog: 240 * time.Second}, c.Pace, c.PipeSize)
+		res, out = runPacedPid(vlib.Cmd{Path: r.Bin(bin), Args: full, Env: env, Dir: home, Watchdog: 240 * time.Second}, c.Pace, c.PipeSize, onStart)
 		evs = readTrace(traceFile)
 		os.Remove(traceFile)
 	}
@@ -474,6 +525,19 @@ func c02Run(r *vlib.Run, i int, c *c02Case, cfgs map[int]string, free chan *c02S
 	}
 	exp := c02Expected(c)
 	obs := c02Parse(out)
+	if c.Rotate != "" {
+		// the server's own message about the state of the file at the end of
+		// the read (text empty when the server logs errors only) is not content
+		var keep []string
+		for _, m := range obs.malformed {
+			if strings.HasPrefix(m, "SERVER|") && (strings.Contains(m, "File got truncated") || strings.Count(m, "|") == 2) {
+				r.Count("server_messages_about_the_rotated_file", 1)
+				continue
+			}
+			keep = append(keep, m)
+		}
+		obs.malformed = keep
+	}
 	detail := func() map[string]interface{} {
 		var sizes []int
 		for _, f := range c.Files {
@@ -524,33 +588,16 @@ func c02Run(r *vlib.Run, i int, c *c02Case, cfgs map[int]string, free chan *c02S
 	// received (or commands never received at all).
 	multiCmd := len(c.Files) > 1 && !c.Glob
 	if multiCmd && suffixLossOnly && lost > 0 && !res.Hung && res.Exit == 0 {
-		// per handler: position of first shutdown.begin and of the last cmd.recv
-		type hs struct {
-			firstShutdown, lastRecv, recvs int
-		}
-		hmap := map[string]*hs{}
-		for k, e := range evs {
-			if len(e.KV) == 0 {
-				continue
-			}
-			h := hmap[e.KV[0]]
-			if h == nil {
-				h = &hs{firstShutdown: -1, lastRecv: -1}
-				hmap[e.KV[0]] = h
-			}
-			switch e.Name {
-			case "srv.shutdown.begin":
-				if h.firstShutdown < 0 {
-					h.firstShutdown = k
-				}
-			case "srv.cmd.recv":
-				h.lastRecv = k
-				h.recvs++
+		// per handler (session)
+		handlers := map[string]bool{}
+		for _, e := range evs {
+			if len(e.KV) > 0 && strings.HasPrefix(e.Name, "srv.cmd.") {
+				handlers[e.KV[0]] = true
 			}
 		}
 		race := false
-		for _, h := range hmap {
-			if h.firstShutdown >= 0 && (h.lastRecv > h.firstShutdown || h.recvs < len(c.Files)) {
+		for h := range handlers {
+			if cmdRaceInTrace(evs, h, len(c.Files)) {
 				race = true
 			}
 		}
@@ -568,6 +615,46 @@ func c02Run(r *vlib.Run, i int, c *c02Case, cfgs map[int]string, free chan *c02S
 		what = "exit-status"
 	}
 	r.Violation(what, detail())
+}
+
+// cmdRaceInTrace decides whether a session's hook events show the recorded
+// command race (c02.cmd-race): all commands received so far were finished
+// (the session was about to shut down, or had begun to) when a later command
+// was received, or fewer commands than the client sent were received at all.
+// srv.cmd.recv is logged after the command was counted, srv.cmd.done before it
+// is discounted and srv.shutdown.begin after the decision to shut down, so "all
+// received commands done" can precede a later recv in the trace while the
+// shutdown's own event follows it. handler == "" takes all events.
+func cmdRaceInTrace(evs []hookEvent, handler string, wantCmds int) bool {
+	recv, done := 0, 0
+	idle := false // every command received so far is done
+	shutdown := false
+	race := false
+	for _, e := range evs {
+		if handler != "" && (len(e.KV) == 0 || e.KV[0] != handler) {
+			continue
+		}
+		switch e.Name {
+		case "srv.cmd.recv":
+			if len(e.KV) > 1 && e.KV[1] == ".ack" {
+				continue
+			}
+			if (idle || shutdown) && recv > 0 {
+				race = true
+			}
+			recv++
+			idle = false
+		case "srv.cmd.done":
+			if len(e.KV) > 1 && e.KV[1] == ".ack" {
+				continue
+			}
+			done++
+			idle = done >= recv
+		case "srv.shutdown.begin":
+			shutdown = true
+		}
+	}
+	return race || (shutdown && recv < wantCmds)
 }
 
 var c02BigOnce sync.Once
